@@ -80,3 +80,15 @@ Proof. vm_compute. repeat split. left. reflexivity. Qed.
 Example ex_not_before :
   snd (step (final (init 10 1000) (ex_pre ++ OMove 7 25500 :: repeat OTick 23)) OTick) = [].
 Proof. vm_compute. reflexivity. Qed.
+
+(* The pointer-level model (heap of entries with removed flags, per-slot pointer
+   lists, key -> (slot, pointer) map: the data structures of timingwheel.go) runs, at
+   every operation of every history, the same callbacks as the due-map specification,
+   up to the order of the callbacks of one operation. *)
+From GZ Require Import C12.Concrete C12.ConcreteProofs.
+From Coq Require Import Permutation.
+Theorem pointer_level_wheel_refines_due_map : forall n i ops,
+  1 <= n -> 1 <= i ->
+  Forall2 (@Permutation (Z * Z)) (crun (cinit n i) ops) (sp_run i [] ops).
+Proof. exact concrete_refines_due_map. Qed.
+Print Assumptions pointer_level_wheel_refines_due_map.
